@@ -754,8 +754,11 @@ def run_witness(binpath, w):
                     e1 = errors_of(f)
                     if e0 == 0 and e1 != 0:
                         return "program %d: fixed program no longer checks cleanly (%s error diagnostics): %r -> %r" % (idx, e1, text[:120], cur[:160])
-                    if e0 == 0 and r0.returncode == 0 and "Error" not in r0.stderr:
-                        r1 = subprocess.run([binpath, "run", f], capture_output=True, text=True, timeout=30, cwd=tmpdir)
+                    # C22 as stated: the result still parses; if the original ran without error, same output and result
+                    r1 = subprocess.run([binpath, "run", f], capture_output=True, text=True, timeout=30, cwd=tmpdir)
+                    if "Parse error" in (r1.stderr + r1.stdout) and "Parse error" not in (r0.stderr + r0.stdout):
+                        return "program %d: the fixed program does not parse: %r -> %r" % (idx, text[:120], cur[:200])
+                    if r0.returncode == 0 and "Error" not in r0.stderr and "Exception" not in r0.stderr:
                         if r1.stdout != r0.stdout or r1.returncode != r0.returncode:
                             return "program %d: output changed after --fix: %r -> %r (source %r -> %r)" % (idx, r0.stdout[-80:], r1.stdout[-80:], text[:120], cur[:160])
                 except subprocess.TimeoutExpired:
